@@ -171,3 +171,10 @@ Theorem C04_source_iter_clone : forall f g pan nd a,
               (Panic, [], [], map EDrop made, c)
   end.
 Proof. exact tie_iter_clone. Qed.
+
+(* the trait-default GenericSequence::inverted_zip (src/sequence.rs) as regenerated: owned.zip(&rhs, f)
+   and owned.zip(&mut rhs, f) -- lhs behind an ArrayConsumer, self iterated by value *)
+Theorem C04_source_default_zip : forall f g pan a b so nd, length a = length b ->
+  agrees (run_from_iter [b; a] so f g pan (pipe_of gen_default_inverted_zip nd) (length a))
+         (zip_ true so f pan a b).
+Proof. exact tie_default_zip. Qed.
